@@ -5,6 +5,7 @@ mod proto;
 mod c06;
 mod c07;
 mod errs;
+mod pathmap;
 mod pump;
 mod tyseed;
 mod e2e;
@@ -39,6 +40,7 @@ fn main() {
         ("c07", m) => c07::run(m, &a),
         ("pump", m) => pump::run(m, &a),
         ("e2e", m) => e2e::run(m, &a),
+        ("pathmap", m) => pathmap::run(m, &a),
         _ => { eprintln!("unknown area/mode"); 2 }
     };
     std::process::exit(code);
